@@ -1,12 +1,35 @@
 PROP = dict(
     level="exploration",
-    technique="property-based testing (rapid): grammar-directed (AST, text) generator vs pql.ParseString; String() re-parse round trip; 2-node vs 1-node differential",
-    level_text="TODO",
-    level_note="TODO",
-    rule="TODO",
-    assumptions=[],
+    technique="property-based testing (rapid): grammar-directed (AST, text) generator vs pql.ParseString; Call.String() re-parse round trip on parser- and "
+              "executor-placed value types; differential 2-node cluster vs single node",
+    level_text="Queries are generated from the grammar file pql/pql.peg together with the AST they denote (every call form, positional and keyword arguments, "
+               "all 7 condition operators, both `a < f < b` forms, lists, null/true/false, int64 edges and out-of-range integers, decimals, timestamps, bare words, "
+               "strconv.Quote'd arbitrary byte strings, raw and single-quoted Unicode strings, random whitespace where the grammar has `sp`); ParseString must return "
+               "exactly that AST in values and Go types, or the documented error for out-of-range integers / duplicate arguments. Every parsed query, and every call "
+               "after the real executor front half (translateCalls on keyed/unkeyed indexes and fields, validateCallArgs, the TopN refetch clone), is printed with "
+               "String() and must re-parse to the same call. On a real 2-node cluster generated query histories (writes forwarded to the shard owner, attributes sent "
+               "to every node, TopN with ids, null conditions, float attributes) must give the same typed results as on a single node. Exploration, not proof.",
+    level_note="Trusted: Go toolchain, rapid, strconv (Quote/ParseFloat define the meaning of string and decimal literals), the generator's reading of pql.peg. "
+               "Not generated: backslashes inside single-quoted strings and raw (non strconv.Quote) backslash escapes (the grammar gives them no meaning), "
+               "invalid UTF-8 in the query text, row/column ids >= 2^63 (not expressible in PQL), Min/Max results on the cluster (tie handling is C14/C17). "
+               "TopN(n=k) results are compared by their counts only (which of several equal rows survives the cut is unspecified). "
+               "The cluster part depends on loopback gossip start-up; a start-up failure ends the worker (inconclusive), never a violation.",
+    rule="parse: rapid-generated query of 0-3 calls, depth <= 3, <= 4 args and <= 3 children per call, distinct = hash of the query text; non-trivial = the text holds at "
+         "least one of: non-ASCII or escaped string, condition or conditional, list, call-valued argument, nested call, special call form (Set/SetRowAttrs/TopN/Range/...), "
+         "int64 edge or out-of-range integer, decimal, timestamp, null/bool, duplicate argument, tab/newline whitespace, string in a positional slot. "
+         "forward: 1-3 executable calls over indexes i (ids) and ik (column keys) with set/keyed/bool/int/time fields; non-trivial = after the executor front half a call "
+         "holds a uint64, []int64, []uint64, nil, float64, *Condition, *Call or list argument. cluster: history of 3-12 queries on a fresh index sent to either node; "
+         "non-trivial = history holds float/null attributes, a null condition, TopN with ids or n, bulk SetRowAttrs or a keyed row.",
+    assumptions=["the meaning of a query text is defined by pql/pql.peg read as a PEG (ordered choice), plus: integer literals are int64, decimal literals float64 "
+                 "(IEEE nearest), `a < f < b` is the inclusive range [a+1, b-1], out-of-range integers and duplicate arguments are parse errors (parser.go constants)",
+                 "int64 and uint64 (and []int64 / []uint64 / lists of integers) of equal value are the same argument value: every consumer reads them through "
+                 "UintArg/IntArg/UintSliceArg/validateCallArgs",
+                 "row and column ids are < 2^63 (larger ids cannot be written in PQL at all)",
+                 "cluster part: keyed writes enter through the coordinator (key translation across nodes is property C24)"],
     tags=["gp"],
     units=[
-        U("parse", "./pql", "^TestVerifC26_Parse$", 8000, 1000000, sq=4, sth=14),
+        U("parse", "./pql", "^TestVerifC26_Parse$", 6000, 400000, sq=6, sth=14, timeout={"quick": 300, "thorough": 1500}),
+        U("forward", ".", "^TestVerifC26_Forward$", 2000, 120000, sq=4, sth=8, timeout={"quick": 300, "thorough": 1500}),
+        U("cluster", "./server", "^TestVerifC26_Cluster$", 240, 12000, sq=3, sth=6, timeout={"quick": 300, "thorough": 1500}),
     ],
 )
